@@ -389,7 +389,7 @@ static void list_stops()
     mc::Subspace sub;
     sub.name = "early stop";
     bool q = TIER == "quick";
-    long long cap = q ? 1500 : 12000;
+    long long cap = q ? 900 : 12000;
     sub.bound = "for each (position, go) whose un-stopped search makes N <= " + std::to_string(cap) + " node visits: Search::stop() injected at visit k for EVERY k in [0, N], and before go() / on its entry / after its initialisation";
     struct G
     {
@@ -555,7 +555,7 @@ static void list_poison()
 {
     mc::Subspace sub;
     sub.name = "table poisoning";
-    sub.bound = "for 3 positions x go depth 3: every key probed at ply<=2 x engine-producible entry alphabet (6 moves x depth{0,3,60} x flag{EXACT,LOWER,UPPER} x 7 scores x epoch{current,stale})";
+    sub.bound = "for 3 positions x go depth 3: every key probed at ply<=2 x engine-producible entry alphabet (6 moves x depth{0,60} (thorough: {0,3,60}) x flag{EXACT,LOWER,UPPER} x 7 scores x epoch{current,stale})";
     bool q = TIER == "quick";
     const char* fens[] = {"8/8/8/3k4/8/3K4/3P4/8 w - - 0 1", "6k1/5ppp/8/8/8/8/8/R3K3 w Q - 0 1", "r3k2r/8/8/8/8/8/8/R3K2R w KQkq - 0 1"};
     for (const char* fen : fens)
@@ -589,6 +589,8 @@ static void list_poison()
             const int64_t scores[] = {0, 500, -500, VALUE_MATE - 3, -(VALUE_MATE - 3), VALUE_MATE, -VALUE_MATE};
             for (Move mv : moves)
                 for (int depth : {0, 3, 60})
+                {
+                    if (q && depth == 3) continue;
                     for (int flag = 0; flag < 3; ++flag)
                         for (int64_t sc : scores)
                             for (int stale = 0; stale < 2; ++stale)
@@ -608,6 +610,7 @@ static void list_poison()
                                 sub.states++;
                                 if (sub.states == 11) R.sample(spec_json(s));
                             }
+                }
         }
     }
     sub.exhaustive = true;
